@@ -17,6 +17,8 @@ import (
 	"sort"
 
 	"pgregory.net/rapid"
+
+	"verif/lib/stats"
 )
 
 type params = map[string]int
@@ -893,7 +895,13 @@ func classify(w *workload, c Case) ([]string, bool) {
 // genCase draws one case. Every random choice is made here.
 func genCase(t *rapid.T) Case {
 	var c Case
-	c.Workload = rapid.SampledFrom(workloadNames).Draw(t, "workload")
+	// rapid's first draws of a run favour small values, i.e. the head of the
+	// list; with the handful of cases per shard of the quick tier that would
+	// starve most workloads. The list is therefore rotated by a constant of the
+	// process (shard and seed): generation stays a pure function of rapid's
+	// bit stream inside one process, which is all that shrinking needs.
+	rot := (stats.Shard()*5 + int(stats.Seed()%1000)*7) % len(workloadNames)
+	c.Workload = workloadNames[(rapid.IntRange(0, len(workloadNames)-1).Draw(t, "workload")+rot)%len(workloadNames)]
 	w := registry[c.Workload]
 
 	// architecture
